@@ -83,6 +83,8 @@ def sizeform(prog, fn, v, depth=0, _seen=None):
         if root.kind == 'bin' and v.fields() == ('0',):
             return sizeform(prog, fn, root, depth + 1, _seen)
         return bad('value read from memory: %s' % show(v, 3))
+    if v.ty == 'bool' or (k == 'bin' and v.args[0] in ('Eq', 'Ne', 'Lt', 'Le', 'Gt', 'Ge')):
+        return Form('CONST', const=1)        # a truth value widened to an integer: at most 1
     if k == 'bin':
         op, a, b = v.args
         fa = sizeform(prog, fn, a, depth + 1, _seen)
